@@ -441,10 +441,10 @@ func (g *gen) letters() string {
 func (g *gen) print() TNode {
 	p := Print{Path: g.anyPath().Path, Letters: g.letters(), Mods: g.mods()}
 	if g.cfg.PreSuf && g.r.Rng.Intn(4) == 0 {
-		p.Pre, p.PreKW = pick(g.r, []string{"<li>", "[", "p:"}), pick(g.r, []string{"prefix", "pfx"})
+		p.Pre, p.PreKW = pick(g.r, []string{"<li>", "[", "p:", `{"k":`, "{", "100%"}), pick(g.r, []string{"prefix", "pfx"})
 	}
 	if g.cfg.PreSuf && g.r.Rng.Intn(4) == 0 {
-		p.Suf, p.SufKW = pick(g.r, []string{"</li>", "]", ";"}), pick(g.r, []string{"suffix", "sfx"})
+		p.Suf, p.SufKW = pick(g.r, []string{"</li>", "]", ";", "}", "}]", "%", "{"}), pick(g.r, []string{"suffix", "sfx"})
 	}
 	if g.cfg.Region && !g.cfg.NoRaw && g.r.Rng.Intn(6) == 0 {
 		p.Raw = true
@@ -633,7 +633,7 @@ func (g *gen) cloop(depth int) TNode {
 		l.Lim = strconv.Itoa(lim)
 	}
 	if g.r.Rng.Intn(3) == 0 {
-		l.Sep, l.SepKW = pick(g.r, []string{",", "; ", "|"}), pick(g.r, []string{"separator", "sep"})
+		l.Sep, l.SepKW = pick(g.r, []string{",", "; ", "|", "},{", "}{", "%"}), pick(g.r, []string{"separator", "sep"})
 	}
 	g.loops++
 	g.cvars = append(g.cvars, v)
@@ -694,7 +694,7 @@ func (g *gen) rloop(depth int) TNode {
 		l.Key = ""
 	}
 	if g.r.Rng.Intn(3) == 0 {
-		l.Sep, l.SepKW = pick(g.r, []string{",", "; ", "|"}), pick(g.r, []string{"separator", "sep"})
+		l.Sep, l.SepKW = pick(g.r, []string{",", "; ", "|", "},{", "}{", "%"}), pick(g.r, []string{"separator", "sep"})
 	}
 	g.loops++
 	l.Body = g.block(depth + 1)
